@@ -177,6 +177,14 @@ bool prop(Tape &t, Report &R) {
       reached = r0, threw = t0;
     }
   }
+  // ... and a degenerate companion: rows completely covered by an obstruction and by multi-row cells
+  if (tail % 32 == 2 && !usesGlobal) {
+    CircuitSpec cov = genCoveredCircuit(tail);
+    R.classify("shape:rows-fully-covered");
+    int r0 = reached, t0 = threw;
+    if (!runFlow(cov, params)) return false;
+    reached = r0, threw = t0;
+  }
   R.classify(threw ? "outcome:some-stage-threw" : "outcome:all-returned");
   if ((reached >= 2 || threw) && s.scale >= 1) R.nontrivial(s.hash() ^ Hasher().add(flow).add(deg).h, [&] { return s.json(12); });
   return true;
